@@ -238,8 +238,7 @@ namespace smt
     {
         assert(root_level());
         // we try to avoid creating a new variable..
-        std::sort(ls.begin(), ls.end(), [](const auto &l0, const auto &l1)
-                  { return variable(l0) < variable(l1); });
+        std::sort(ls.begin(), ls.end()); // we sort by variable and then by sign, so that equal literals are adjacent..
         lit p;
         size_t lits_size = 0;
         std::string s_expr = "amo";
@@ -307,8 +306,7 @@ namespace smt
     {
         assert(root_level());
         // we try to avoid creating a new variable..
-        std::sort(ls.begin(), ls.end(), [](const auto &l0, const auto &l1)
-                  { return variable(l0) < variable(l1); });
+        std::sort(ls.begin(), ls.end()); // we sort by variable and then by sign, so that equal literals are adjacent..
         lit p;
         size_t j = 0;
         std::string s_expr = "^";
